@@ -14,6 +14,8 @@ func main() {
 	work := flag.String("work", "/tmp/govc-work", "scratch directory for queries")
 	keep := flag.Bool("keep", false, "keep discharged query files")
 	par := flag.Int("par", 12, "parallel obligations")
+	verif := flag.String("verif", "/verif", "verification directory")
+	tier := flag.String("tier", "quick", "quick | thorough")
 	flag.Parse()
 	keepQueries = *keep
 	args := flag.Args()
@@ -27,6 +29,12 @@ func main() {
 		os.Exit(2)
 	}
 	switch args[0] {
+	case "check", "relock":
+		seed := int64(0)
+		if v := os.Getenv("VERIF_SEED"); v != "" {
+			fmt.Sscan(v, &seed)
+		}
+		os.Exit(runCheck(prog, *verif, args[1], *tier, seed, args[0] == "relock", *par))
 	case "list":
 		for _, k := range prog.funcKeys() {
 			fi := prog.funcs[k]
